@@ -1,12 +1,12 @@
 SPECIFICATION Spec
 CONSTANTS
-  NMsgs = 3
-  QosOf <- Q_212
-  MaxFaults = 2
+  NMsgs = 2
+  QosOf <- Q_22
+  MaxFaults = 1
   SessionLoss = TRUE
-  ClearAfterRequeue = TRUE
+  ClearAfterRequeue = FALSE
   KeepOldWaiter = FALSE
-  LossyWrites = TRUE
+  LossyWrites = FALSE
 INVARIANT Qos2AtMostOnce
 INVARIANT CompletedIsDelivered
 INVARIANT NoPubrelUnanswered
